@@ -230,8 +230,27 @@ func (e *eventV1) SetUnsignedField(path string, value interface{}) error {
 	return nil
 }
 
+// signableEventJSON returns the event JSON that Sign hands to signEvent. Events received from
+// other servers are counter-signed (invites, joins), and what they carry under "signatures" is
+// only looked at by the signature checks. A "signatures" member that SignJSON cannot decode -
+// which no signature check can read either - is left out instead of making Sign panic.
+func signableEventJSON(eventJSON []byte) []byte {
+	signatures := gjson.GetBytes(eventJSON, "signatures")
+	if !signatures.Exists() {
+		return eventJSON
+	}
+	var decoded map[string]map[KeyID]spec.Base64Bytes
+	if json.Unmarshal([]byte(signatures.Raw), &decoded) == nil {
+		return eventJSON
+	}
+	if withoutSignatures, err := sjson.DeleteBytes(eventJSON, "signatures"); err == nil {
+		return withoutSignatures
+	}
+	return eventJSON
+}
+
 func (e *eventV1) Sign(signingName string, keyID KeyID, privateKey ed25519.PrivateKey) PDU {
-	eventJSON, err := signEvent(signingName, keyID, privateKey, e.eventJSON, e.roomVersion)
+	eventJSON, err := signEvent(signingName, keyID, privateKey, signableEventJSON(e.eventJSON), e.roomVersion)
 	if err != nil {
 		// This is unreachable for events created with EventBuilder.Build or NewEventFromUntrustedJSON
 		panic(fmt.Errorf("gomatrixserverlib: invalid event %v (%q)", err, string(e.eventJSON)))
